@@ -82,22 +82,25 @@ UNITS = [
     unit('awt_resume_void', 'awt_resume', t='void', uses=('user_cb',), ptypes=awt_ptypes('void'), extra_boundary=[N('void')['user_cb']], harness='h_awt_resume', timeout=600),
 ]
 CHT = 'std::__n4861::coroutine_handle<void>'
+# std::atomic<awaiter*> members read sequentially at member-function level in the drives (pointer values must stay pointers for CBMC's symbolic execution)
+AP = {'ap_aw_load': r'^std::atomic<cocls::awaiter\*>::load\(std::memory_order\) const$', 'ap_aw_xchg': r'^std::atomic<cocls::awaiter\*>::exchange\(',
+      'ap_aw_cas': r'^std::atomic<cocls::awaiter\*>::compare_exchange_weak\(cocls::awaiter\*&, cocls::awaiter\*, std::memory_order, std::memory_order\)$'}
 def drive(name, what, unwind=8, **kw):
     n = N('int')
     d = dict(name='drive_' + name, driver='c15_drive.cpp', roots=[r'^c15_drive$' if name == 'main' else r'^c15_drive_%s$' % name, n['st_dtor'], n['st_ctor']],
-             names={'st_dtor': n['st_dtor'], 'st_ctor': n['st_ctor']}, names_opt={'sp_make': n['sp_make']},
+             names={'st_dtor': n['st_dtor'], 'st_ctor': n['st_ctor']}, names_opt=dict(AP, sp_make=n['sp_make']),
              types=dict(types('int'), CH=CHT, DQCH='std::deque<%s, std::allocator<%s > >' % (CHT, CHT), ALLOCV='std::allocator<void>'),
              globals={'FRAME_KIND': 'g_frame_kind', 'G_LOG': 'g_log', 'G_CB_LIMIT': 'g_cb_limit'},
-             boundary=[r'^std::__shared_count<', r'^std::__weak_count<', r'^std::deque<std::__n4861::coroutine_handle<void>'],
+             boundary=[r'^std::__shared_count<', r'^std::__weak_count<', r'^std::deque<std::__n4861::coroutine_handle<void>'] + list(AP.values()),
              lib=['rt_core.c', 'rt_atomic_seq.c', 'model_signal.c', 'model_dq_ring.c', 'model_heap_frames.c'], spec=['C15/h_drive.c'], harness='h_drive',
-             defines=['CV_NO_HEAP_PRIMS 1', 'CV_NO_SPURIOUS_CAS 1', 'CV_I64_ATOMICS_ARE_POINTERS 1', 'CV_SG_SEQ_ATOMICS 1', 'CV_SG_POINTEE STATE', 'CV_SG_DISPOSE st_dtor',
+             defines=['CV_NO_HEAP_PRIMS 1', 'CV_NO_SPURIOUS_CAS 1', 'CV_SG_SEQ_ATOMICS 1', 'CV_SG_POINTEE STATE', 'CV_SG_DISPOSE st_dtor',
                       'CV_FRAME_KINDS X(1, S_c15_listener_Frame)', 'DRIVE_%s 1' % name],
-             unwind=unwind, object_bits=11, kind='bounded', timeout=900, bounded=what, under_contract=[])
+             unwind=unwind, object_bits=11, kind='bounded', timeout=200, bounded=what, under_contract=[])
     d.update(kw)
     return d
 def shape(nl, late):
     d = drive('main', '%d coroutine listener(s)%s + 1 connected callback (stops after 1, 2 or never), 2 emissions with symbolic values (rvalue; then by value or by lvalue reference), destruction of every handle; single thread, no spurious CAS failure' % (nl, ' + 1 arriving between the signals' if late else ''))
-    d['name'] = 'drive_%dL%s' % (nl, '_late' if late else ''); d['defines'] = d['defines'] + ['DRIVE_NLIST %d' % nl, 'DRIVE_LATE %d' % late, 'DRIVE_LIM 2', 'DRIVE_BYREF 0']
+    d['name'] = 'drive_%dL%s' % (nl, '_late' if late else ''); d['defines'] = d['defines'] + ['DRIVE_NLIST %d' % nl, 'DRIVE_LATE %d' % late]
     return d
 UNITS += [shape(1, 0), shape(2, 0), shape(3, 0), shape(2, 1),
     drive('disconnected', 'one listener on an emitter whose signal was destroyed, one on a default-constructed emitter'),
